@@ -11,6 +11,7 @@ mod c06;
 mod coin;
 mod c13;
 mod c14;
+mod c19;
 mod dispatch;
 mod fri_sim;
 mod hostile;
@@ -39,6 +40,7 @@ fn main() {
         "C05" => c05::spec_c05(),
         "C06" => c06::spec(),
         "C15" => c05::spec_c15(),
+        "C19" => c19::spec(),
         "C13" => c13::spec(),
         "C14" => c14::spec(),
         _ => {
